@@ -30,26 +30,28 @@ Section Chk.
     end.
 
   (* bytes [b] that load, saved again by the implementation to [wire2]: the model reads
-     both as the same column *)
+     both as the same column; when [b] is the model writer's (canonical) spelling of that
+     column the implementation gives back [b] itself *)
   Definition chk_resave (nullable : bool) (b wire2 : bytes) : bool :=
     match rle_load V veqb dec nullable b with
     | Ok rs => res_eqb runs_eqb (rle_load V veqb dec nullable wire2) (Ok rs)
+               && (if bytes_eqb (rle_save_runs V enc rs) b then bytes_eqb wire2 b else true)
     | _ => false
     end.
 End Chk.
 
 Definition chk_save_u64 := chk_save N N.eqb u64_enc u64_dec.
 Definition chk_load_u64 := chk_load N N.eqb u64_dec.
-Definition chk_resave_u64 := chk_resave N N.eqb u64_dec.
+Definition chk_resave_u64 := chk_resave N N.eqb u64_enc u64_dec.
 Definition chk_save_i64 := chk_save Z Z.eqb i64_enc i64_dec.
 Definition chk_load_i64 := chk_load Z Z.eqb i64_dec.
-Definition chk_resave_i64 := chk_resave Z Z.eqb i64_dec.
+Definition chk_resave_i64 := chk_resave Z Z.eqb i64_enc i64_dec.
 Definition chk_save_str := chk_save bytes bytes_eqb str_enc str_dec.
 Definition chk_load_str := chk_load bytes bytes_eqb str_dec.
-Definition chk_resave_str := chk_resave bytes bytes_eqb str_dec.
+Definition chk_resave_str := chk_resave bytes bytes_eqb str_enc str_dec.
 Definition chk_save_blob := chk_save bytes bytes_eqb blob_enc blob_dec.
 Definition chk_load_blob := chk_load bytes bytes_eqb blob_dec.
-Definition chk_resave_blob := chk_resave bytes bytes_eqb blob_dec.
+Definition chk_resave_blob := chk_resave bytes bytes_eqb blob_enc blob_dec.
 
 (* bool *)
 Definition brun_eqb (a b : N * bool) : bool := (fst a =? fst b) && Bool.eqb (snd a) (snd b).
@@ -66,6 +68,7 @@ Definition chk_load_bool (b : bytes) (st : N) (runs : list (N * bool)) : bool :=
 Definition chk_resave_bool (b wire2 : bytes) : bool :=
   match bool_load b with
   | Ok rs => res_eqb bruns_eqb (bool_load wire2) (Ok rs)
+             && (if bytes_eqb (bool_save_runs rs) b then bytes_eqb wire2 b else true)
   | _ => false
   end.
 
@@ -86,6 +89,7 @@ Definition chk_load_delta (nullable : bool) (lo hi : Z) (b : bytes) (st : N) (ru
 Definition chk_resave_delta (nullable : bool) (lo hi : Z) (b wire2 : bytes) : bool :=
   match delta_load nullable lo hi b with
   | Ok rs => res_eqb zruns_eqb (delta_load nullable lo hi wire2) (Ok rs)
+             && (if bytes_eqb (rle_save_runs Z i64_enc rs) b then bytes_eqb wire2 b else true)
   | _ => false
   end.
 
